@@ -1,5 +1,6 @@
 (* Model of cutplace.data.DataFormat: validate() (this file, first part) over the attribute table and
    the check_distinct pairs regenerated from the source (Generated/FormatTable.v). *)
+From Coq Require Import String.
 From CP Require Import Model.Base Generated.Consts Generated.FormatTable.
 
 (* textual attributes as Python values: Some s = the str s, None = None *)
@@ -40,3 +41,156 @@ Definition delimited_attrs (item_delimiter quote_character escape_character : N)
   [(KEY_ITEM_DELIMITER, Some [item_delimiter]); (KEY_QUOTE_CHARACTER, Some [quote_character]);
    (KEY_ESCAPE_CHARACTER, Some [escape_character]); (KEY_LINE_DELIMITER, line_delimiter);
    (KEY_DECIMAL_SEPARATOR, Some decimal_separator); (KEY_THOUSANDS_SEPARATOR, Some thousands_separator)].
+
+(* ====================================================================================================
+   DataFormat.__init__, set_property and its _validated_* helpers *)
+From CP Require Import Model.Ranges Model.Lex Model.RangeParse.
+Local Open Scope Z_scope.
+
+(* attribute values *)
+Inductive aval :=
+| AText (t : option text)      (* str or None *)
+| ABool (b : bool)
+| AInt (z : Z)
+| AQuoting (all : bool)        (* csv.QUOTE_ALL / csv.QUOTE_MINIMAL *)
+| ARange (r : range)           (* allowed_characters once set *)
+| AOther.
+Record dformat := { df_format : text; df_attrs : list (text * aval) }.
+
+Definition aval_of_default (d : default_value) : aval :=
+  match d with
+  | DNone => AText None
+  | DBool b => ABool b
+  | DInt z => AInt z
+  | DText t => if text_eqb t (txt "csv.QUOTE_MINIMAL") then AQuoting false
+               else if text_eqb t (txt "csv.QUOTE_ALL") then AQuoting true else AText (Some t)
+  | DOther => AOther
+  end.
+
+(* DataFormat(format_name): None = InterfaceError (unknown format) *)
+Definition new_format (format_name : text) : option dformat :=
+  let fmt := if text_eqb format_name (txt "csv") then FORMAT_DELIMITED else format_name in
+  if existsb (text_eqb fmt) VALID_FORMATS then
+    Some {| df_format := fmt;
+            df_attrs := map (fun '(n, _, d) => (n, aval_of_default d))
+                            (filter (fun '(n, fmts, d) => existsb (text_eqb fmt) fmts) format_attributes) |}
+  else None.
+
+Fixpoint get_attr (m : list (text * aval)) (n : text) : option aval :=
+  match m with [] => None | (k, v) :: r => if text_eqb k n then Some v else get_attr r n end.
+Fixpoint set_attr (m : list (text * aval)) (n : text) (v : aval) : list (text * aval) :=
+  match m with [] => [] | (k, x) :: r => if text_eqb k n then (k, v) :: r else (k, x) :: set_attr r n v end.
+
+(* int(text): optional blanks, sign, ASCII digits with single underscores between them *)
+Definition py_int (s : text) : option Z :=
+  let t := strip s in
+  let '(neg, body) := match t with
+                      | c :: r => if N.eqb c 45 then (true, r) else if N.eqb c 43 then (false, r) else (false, t)
+                      | [] => (false, []) end in
+  match body with
+  | d :: _ =>
+      if is_digit d then
+        match dtail is_digit body with
+        | NOk ds [] => match digits_value 10 ds 0 with Some z => Some (if neg then - z else z) | None => None end
+        | _ => None
+        end
+      else None
+  | [] => None
+  end.
+(* texts for which py_int is a faithful model of int(): ASCII only *)
+Definition py_int_domain (s : text) : bool := forallb (fun c => (c <? 128)%N) s.
+
+(* DataFormat._validated_character *)
+Inductive chr_res := ChOk (c : N) | ChInterface | ChLeak | ChOutOfDomain.
+Definition validated_character_tokens (value : text) : chr_res :=
+  match generated_tokens value with
+  | LTokenError => ChInterface
+  | LOutOfDomain => ChOutOfDomain
+  | LOk [] => ChOutOfDomain
+  | LOk (t :: rest) =>
+      if is_eof t then ChInterface
+      else
+        let code := match tk t with
+                    | KName => code_for_symbolic (tt t)
+                    | KNumber => code_for_number (tt t)
+                    | KString => code_for_string (tt t)
+                    | _ => match tt t with [c] => COk (Z.of_N c) | _ => CInterface end
+                    end in
+        match code with
+        | COk z =>
+            match rest with
+            | t2 :: _ => if is_eof t2 then (if 1114111 <? z then ChInterface else ChOk (Z.to_N z)) else ChInterface
+            | [] => ChOutOfDomain
+            end
+        | CInterface => ChInterface
+        | CLeak => ChLeak
+        | COutOfDomain => ChOutOfDomain
+        end
+  end.
+Definition validated_character (value : text) : chr_res :=
+  match strip value with
+  | [c] => if is_digit c then validated_character_tokens value else ChOk c   (* a single non-digit stands for itself *)
+  | _ => validated_character_tokens value
+  end.
+
+Inductive set_res := SetOk (d : dformat) | SetInterface | SetLeak | SetOutOfDomain.
+
+Definition lookup_line_delimiter (v : text) : option (option text) :=
+  (fix go (m : list (text * option text)) := match m with [] => None | (k, x) :: r => if text_eqb k v then Some x else go r end)
+    LINE_DELIMITER_TEXTS.
+
+Definition replace_blanks (s : text) : text := map (fun c => if N.eqb c 32 then 95%N else c) s.
+
+(* set_property(name, value); [encoding_known] = whether codecs.lookup(value) succeeds (asked of the runtime) *)
+Definition set_property (d : dformat) (name value : text) (encoding_known : bool) : set_res :=
+  let n := replace_blanks name in
+  let put v := SetOk {| df_format := df_format d; df_attrs := set_attr (df_attrs d) n v |} in
+  match get_attr (df_attrs d) n with
+  | None => SetInterface
+  | Some _ =>
+      if text_eqb n KEY_FORMAT || text_eqb n (txt "is_valid") then SetInterface
+      else if text_eqb n KEY_ENCODING then (if encoding_known then put (AText (Some value)) else SetInterface)
+      else if text_eqb n KEY_HEADER then
+        (if negb (py_int_domain value) then SetOutOfDomain
+         else match py_int value with Some z => if z <? 0 then SetInterface else put (AInt z) | None => SetInterface end)
+      else if text_eqb n KEY_SHEET then
+        (if negb (py_int_domain value) then SetOutOfDomain
+         else match py_int value with Some z => if z <? 1 then SetInterface else put (AInt z) | None => SetInterface end)
+      else if text_eqb n KEY_ALLOWED_CHARACTERS then
+        match range_of_text value with
+        | POk r => put (ARange r) | PInterface => SetInterface | PLeak => SetLeak | POutOfDomain => SetOutOfDomain end
+      else if text_eqb n KEY_DECIMAL_SEPARATOR then
+        (if existsb (text_eqb value) VALID_DECIMAL_SEPARATORS then put (AText (Some value)) else SetInterface)
+      else if text_eqb n KEY_ESCAPE_CHARACTER then
+        (if existsb (text_eqb value) VALID_ESCAPE_CHARACTERS then put (AText (Some value)) else SetInterface)
+      else if text_eqb n KEY_QUOTE_CHARACTER then
+        (if existsb (text_eqb value) VALID_QUOTE_CHARACTERS then put (AText (Some value)) else SetInterface)
+      else if text_eqb n KEY_THOUSANDS_SEPARATOR then
+        (if existsb (text_eqb value) VALID_THOUSANDS_SEPARATORS then put (AText (Some value)) else SetInterface)
+      else if text_eqb n KEY_ITEM_DELIMITER then
+        match validated_character value with
+        | ChOk c => if N.eqb c 0 then SetInterface else put (AText (Some [c]))
+        | ChInterface => SetInterface | ChLeak => SetLeak | ChOutOfDomain => SetOutOfDomain
+        end
+      else if text_eqb n KEY_LINE_DELIMITER then
+        (if has_non_ascii value then SetOutOfDomain
+         else match lookup_line_delimiter (lower value) with
+              | Some None => if text_eqb (df_format d) FORMAT_FIXED then put (AText None) else SetInterface
+              | Some (Some x) => put (AText (Some x))
+              | None => SetInterface
+              end)
+      else if text_eqb n KEY_QUOTING then
+        (if has_non_ascii value then SetOutOfDomain
+         else if text_eqb (lower value) (txt "all") then put (AQuoting true)
+         else if text_eqb (lower value) (txt "minimal") then put (AQuoting false) else SetInterface)
+      else if text_eqb n KEY_SKIP_INITIAL_SPACE then
+        (if has_non_ascii value then SetOutOfDomain
+         else if text_eqb (lower value) (txt "true") then put (ABool true)
+         else if text_eqb (lower value) (txt "false") then put (ABool false) else SetInterface)
+      else SetInterface
+  end.
+
+(* the textual attributes, for validate() *)
+Definition text_attrs (d : dformat) : attr_map :=
+  flat_map (fun '(n, v) => match v with AText t => [(n, t)] | _ => [] end) (df_attrs d).
+Definition validate_format (d : dformat) : bool := validate_ok (df_format d) (text_attrs d).
